@@ -154,6 +154,16 @@ func (p *jsonPathParser) setNodeChain() {
 		last := root
 		for _, next := range p.params[1:] {
 			if funcNode, ok := next.(*syntaxAggregateFunction); ok {
+				// The chain collected so far becomes the parameter of the
+				// aggregate function: record on its head whether it can
+				// select several values, as updateRootValueGroup does for
+				// the outermost chain.
+				for checkNode := root; checkNode != nil; checkNode = checkNode.getNext() {
+					if checkNode.isValueGroup() {
+						root.setValueGroup()
+						break
+					}
+				}
 				funcNode.param = root
 				p.updateAccessorMode(funcNode.param, false)
 				root = funcNode
